@@ -505,8 +505,42 @@ func rtConfinement(a *aggregator, v *rtView) {
 			continue
 		}
 		nG++
-		if hasPointers(g.Type().(*types.Pointer).Elem(), 0) {
-			bad = append(bad, fmt.Sprintf("%s %s holds references (shared mutable storage reachable by every instance)", g.Name(), g.Type().(*types.Pointer).Elem()))
+		if gt := g.Type().(*types.Pointer).Elem(); hasPointers(gt, 0) {
+			// a slice of reference-free elements that is only ever read (element
+			// loads, len, range) is as good as an array: nobody can write its storage
+			sl, isSlice := gt.Underlying().(*types.Slice)
+			if !isSlice || hasPointers(sl.Elem(), 0) {
+				bad = append(bad, fmt.Sprintf("%s %s holds references (shared mutable storage reachable by every instance)", g.Name(), gt))
+			} else {
+				for _, f := range v.all {
+					if f.Name() == "init" {
+						continue
+					}
+					instrsOf(f, func(in ssa.Instruction) {
+						u, ok := in.(*ssa.UnOp)
+						if !ok || u.Op != token.MUL || u.X != ssa.Value(g) {
+							return
+						}
+						for _, r := range *u.Referrers() {
+							switch x := r.(type) {
+							case *ssa.IndexAddr:
+								for _, rr := range *x.Referrers() {
+									if l, ok := rr.(*ssa.UnOp); !ok || l.Op != token.MUL {
+										bad = append(bad, fmt.Sprintf("%s: an element of the shared slice %s is addressed for something other than a load", v.in.srcPos(x.Pos()), g.Name()))
+									}
+								}
+							case *ssa.Range, *ssa.DebugRef:
+							case *ssa.Call:
+								if n := calleeName(x); n != "builtin.len" && n != "builtin.cap" {
+									bad = append(bad, fmt.Sprintf("%s: the shared slice %s is passed to %s", v.in.srcPos(x.Pos()), g.Name(), n))
+								}
+							default:
+								bad = append(bad, fmt.Sprintf("%s: the shared slice %s is used other than by element load (%T): its storage may be written through the copy", v.in.srcPos(r.Pos()), g.Name(), r))
+							}
+						}
+					})
+				}
+			}
 		}
 		// the address must not escape: only element loads
 		for _, f := range v.all {
